@@ -5,7 +5,7 @@
 CONSTANTS
   Mode = "gen"
   Procs = {"p1", "p2"}
-  HasNX = FALSE
+  HasNX = "no"
   NCands = 2
   MaxAttempts = 2
   MaxCalls = 2
@@ -16,6 +16,8 @@ CONSTANTS
   TTLTicks = 3
   MaxTicks = 0
   Faults = {}
+  MaxRenewFails = 0
+  WithLapse = FALSE
   Emit = FALSE
 INIT Init
 NEXT Next
